@@ -499,6 +499,63 @@ func (g *condGen) scenario(name string) {
 	}
 }
 
+// class backlog: b items queue up with NO consumer (ordinary adds, then one last add of the given kind), then k
+// consumers arrive one after the other: each must return at once with its own item (variant parkedFirst: a few
+// consumers are parked first and the adds come as one burst).  b runs over the sizes at which containers change shape.
+var backlogSizes = []int{0, 1, 7, 8, 15, 16, 17, 31, 32, 33, 63, 64, 65, 127, 128, 129}
+
+type backlogKind struct {
+	op     int
+	anyway bool
+	name   string
+}
+
+func backlogKinds(kind int) []backlogKind {
+	ks := []backlogKind{{lAdd, false, "add"}}
+	if kind != kSync {
+		ks = append(ks, backlogKind{lAddPrior, false, "prior"}, backlogKind{lAdd, true, "anyway"})
+	}
+	if kind == kMQ {
+		ks = append(ks, backlogKind{lAddCtrl, false, "ctrl"}, backlogKind{lAddPriorCtrl, false, "priorctrl"}, backlogKind{lAddCtrl, true, "ctrlanyway"})
+	}
+	return ks
+}
+
+func runBacklog(e *vh.Env, typ string, b int, bk backlogKind, parkedFirst bool, kmax int) *condGen {
+	k := b + 1
+	if k > kmax {
+		k = kmax
+	}
+	pre := 0
+	if parkedFirst {
+		pre = 1 + e.Rnd.Intn(4)
+		if pre > k {
+			pre = k
+		}
+	}
+	g := newCondGen(e.Rnd, typ, 0, 0, k)
+	launch1 := func() {
+		if la, ok := g.launch(e.Rnd.Intn(2) == 0); ok {
+			g.exec(cBatch{Launches: []cLaunch{la}})
+		}
+	}
+	for i := 0; i < pre; i++ {
+		launch1()
+	}
+	var burst []cOp
+	for i := 0; i < b; i++ {
+		burst = append(burst, cOp{Op: lAdd, X: g.nextItem})
+		g.nextItem++
+	}
+	burst = append(burst, cOp{Op: bk.op, X: g.nextItem, Anyway: bk.anyway})
+	g.nextItem++
+	g.exec(cBatch{Lanes: [][]cOp{burst}})
+	for i := pre; i < k && !g.run.res.stuck && !g.run.res.diverged; i++ {
+		launch1()
+	}
+	return g
+}
+
 func emitCond(e *vh.Env, g *condGen, scen string) {
 	r := g.run.finish()
 	cfg := r.cfg
@@ -973,6 +1030,37 @@ func main() {
 				}
 				hist[fmt.Sprintf("cond maxparked=%d", g.run.res.maxParked)]++
 				emitCond(e, g, scen)
+			}
+		}
+		for _, typ := range types {
+			if typ == "priq.PriQueue" || stuckCases >= 2 || diverged >= maxDiverged {
+				continue
+			}
+			kinds := backlogKinds(condKind(typ))
+			for _, b := range backlogSizes {
+				for ki, bk := range kinds {
+					for _, parkedFirst := range []bool{false, true} {
+						// quick tier: one kind and one variant per size (rotating); thorough: all of them
+						if !(e.Thorough || e.Search) && (ki != (b+int(e.Seed))%len(kinds) || parkedFirst != (b%3 == 1)) {
+							continue
+						}
+						if stuckCases >= 2 || diverged >= maxDiverged || !time.Now().Before(genDeadline) {
+							continue
+						}
+						kmax := 6
+						if b%5 == 0 || e.Rnd.Intn(8) == 0 {
+							kmax = 40
+						}
+						g := runBacklog(e, typ, b, bk, parkedFirst, kmax)
+						if g.run.res.stuck {
+							stuckCases++
+						}
+						if g.run.res.diverged {
+							diverged++
+						}
+						emitCond(e, g, "backlog-"+bk.name)
+					}
+				}
 			}
 		}
 		if stuckCases == 0 {
